@@ -2030,7 +2030,7 @@ func TestCheck(t *testing.T) {
 	run.Assume("complying calls are allowed to fail (thunder compares Go values with ==, so another Go type of the same value is rejected); only statements and non-complying calls are judged")
 	reactive.WriteThenReadDelay = 0
 	pinned(run)
-	n := run.N(1500, 600000)
+	n := run.N(1500, 1200000)
 	run.Each(n, 8, func(i int) {
 		runScenario(run, i)
 	})
